@@ -166,7 +166,19 @@ GROUPING = [
     ("print([(a, b)])", "[(1, 2)]"), ("print([(a, b), (b, a)])", "[(1, 2), (2, 1)]"), ("print({(a, b)})", "{(1, 2)}"), ("print(idt(((a, b))))", "(1, 2)"),
     ("print(idt((a + 1, b * 2)))", "(2, 4)"), ("print([a, b])", "[1, 2]"),
     ("print([[a, b]])", "[[1, 2]]"), ("print(((a, b), (b, a)))", "((1, 2), (2, 1))"), ("print(idt(idt((a, b))))", "(1, 2)"),
-    ("def tq := (a, b)\nprint(idt(tq))", "(1, 2)"), ("print((a, b), 3)", "(1, 2) 3"), ("print(3, (a, b))", "3 (1, 2)"), ("print(two(fst((a, b)), b))", "12"),
+    ("def tq := (a, b)\nprint(idt(tq))", "(1, 2)"),
+    # the same under an explicit `return`, as the value of a definition, as an argument of print inside a function
+    ("def r1(p: Int, q: Int) -> (Int, Int) =>\n    return if p < q then (p, q) else (q, p)\nprint(r1(3, 1))", "(1, 3)"),
+    ("def r2(p: Int, q: Int) -> List[(Int, Int)] =>\n    return [(p, q), (q, p)]\nprint(r2(3, 1))", "[(3, 1), (1, 3)]"),
+    ("def r3(p: Int, q: Int) -> (Int, Int) =>\n    return idt((p, q))\nprint(r3(3, 1))", "(3, 1)"),
+    ("def r4(p: Int, q: Int) -> (Int, Int) =>\n    return (p, q)\nprint(r4(3, 1))", "(3, 1)"),
+    ("def r5(p: Int, q: Int) -> ((Int, Int), Int) =>\n    return ((p, q), 3)\nprint(r5(3, 1))", "((3, 1), 3)"),
+    ("def r6(p: Int, q: Int) -> Int =>\n    return fst((p, q)) + two(p, q)\nprint(r6(3, 1))", "32"),
+    ("def r7(p: Int, q: Int) -> (Int, Int) => if p < q then (p, q) else (q, p)\nprint(r7(3, 1))", "(1, 3)"),
+    ("def r8(p: Int, q: Int) -> (Int, Int) =>\n    def t := if p < q then (p, q) else (q, p)\n    t\nprint(r8(3, 1))", "(1, 3)"),
+    ("def r9(p: Int, q: Int) -> (Int, (Int, Int)) =>\n    print((p, q))\n    return (p, (q, p))\nprint(r9(3, 1))", "(3, 1)|(3, (1, 3))"),
+    ("def t1 := if a < b then (a, b) else (b, a)\nprint(t1)", "(1, 2)"),
+    ("def l1 := [(a, b), (b, a)]\nprint(l1)", "[(1, 2), (2, 1)]"), ("print((a, b), 3)", "(1, 2) 3"), ("print(3, (a, b))", "3 (1, 2)"), ("print(two(fst((a, b)), b))", "12"),
 ]
 
 
@@ -180,7 +192,7 @@ def grouping_oracle(chk):
         why = None
         if r[0][0] != "ok":
             why = "source %r is rejected: %s" % (src, (r[0][1][0].splitlines()[0] if r[0][0] == "err" and r[0][1] else r[0][0]))
-        elif run_[0] != [want] or run_[1] != "ok":
+        elif run_[0] != want.split("|") or run_[1] != "ok":
             why = "source %r prints %s in the emitted Python, it denotes %r" % (src, run_, want)
         n += 1
         if why:
